@@ -676,3 +676,5 @@ def run(ck):
         c01_5b(ck, prog)
         c01_6(ck, prog)
         c01_8(ck, prog)
+        from rules.C16 import c16_5
+        c16_5(ck, prog, 'C01.9')
